@@ -109,6 +109,8 @@ pub enum Fault {
     WritesFail { at: u64 },
     /// `n` operations starting at `at` answer ErrorKind::Interrupted (sync faces); exploratory
     Interrupted { at: u64, n: u64 },
+    /// `n` operations starting at `at` fail with ErrorKind::TimedOut, then the stream works again
+    Transient { at: u64, n: u64 },
 }
 
 #[derive(Clone, Copy, Debug, PartialEq, Eq)]
@@ -174,6 +176,7 @@ struct Inner {
     budget_exceeded: bool,
     epoch_seen: u64,
     ops_in_call: u64,
+    budget: u64,
 }
 
 /// Cloneable handle to one simulated stream.
@@ -207,6 +210,7 @@ impl SimDisk {
             budget_exceeded: false,
             epoch_seen: 0,
             ops_in_call: 0,
+            budget: OP_BUDGET,
         })))
     }
     pub fn plain(image: Vec<u8>) -> Self {
@@ -220,6 +224,11 @@ impl SimDisk {
     }
     pub fn at(self, pos: u64) -> Self {
         self.lock().pos = pos;
+        self
+    }
+    /// Per-call stream operation budget (a runaway loop becomes a deterministic error).
+    pub fn budget(self, n: u64) -> Self {
+        self.lock().budget = n;
         self
     }
     pub fn fault(self, f: Fault) -> Self {
@@ -332,7 +341,7 @@ impl Inner {
             self.ops_in_call = 0;
         }
         self.ops_in_call += 1;
-        if self.ops_in_call > OP_BUDGET {
+        if self.ops_in_call > self.budget {
             self.budget_exceeded = true;
             return Err(io::Error::new(io::ErrorKind::Other, "simdisk: operation budget exceeded"));
         }
@@ -361,6 +370,14 @@ impl Inner {
                 if idx >= at && matches!(kind, OpKind::Write | OpKind::Flush | OpKind::Close) {
                     self.stats.faults_fired += 1;
                     Err(io::Error::new(io::ErrorKind::Other, "simdisk: injected disk full"))
+                } else {
+                    Ok(())
+                }
+            }
+            Fault::Transient { at, n } => {
+                if idx >= at && idx < at + n {
+                    self.stats.faults_fired += 1;
+                    Err(io::Error::new(io::ErrorKind::TimedOut, "simdisk: injected transient timeout"))
                 } else {
                     Ok(())
                 }
